@@ -210,6 +210,38 @@ def array_failures(d, b_d=None, st=None):
             check_entries(fails, st, "multiply_diagonal",
                           entries3(lambda: x.multiply_diagonal(v, axis), lambda: sr.multiply_diagonal(x, v, axis), lambda: ar.do("multiply_diagonal", x, v, axis)),
                           arr_verify(sym, ref, fr, x.duals, x.charge))
+    # complex diagonal on a real array: plain type promotion, the dense product is complex
+    if n >= 1 and "complex" not in d["dtype"] and x.blocks:
+        table = fr[0]
+        vb, t0 = {}, 2
+        for c, dd in table:
+            vb[c] = (np.arange(t0, t0 + dd) * (1 + 2j)).astype(np.complex128)
+            t0 += dd
+        v = sr.BlockVector(vb)
+        V = embed_vector(v, table)
+        shape = [1] * n
+        shape[0] = -1
+        check_entries(fails, st, "multiply_diagonal[complex-vector]",
+                      entries3(lambda: x.multiply_diagonal(v, 0), lambda: sr.multiply_diagonal(x, v, 0), lambda: ar.do("multiply_diagonal", x, v, 0)),
+                      arr_verify(sym, X * V.reshape(shape), fr, x.duals, x.charge))
+    # an array whose blocks have mixed element types: first stored block real, the others complex (a + b with real a, sparse complex b)
+    if len(x.blocks) >= 2 and "complex" not in d["dtype"]:
+        try:
+            bcomp = x * (0.5 + 1.5j)
+            del bcomp.blocks[next(iter(x.blocks))]
+            m = x + bcomp
+        except Exception:
+            m = None
+        if m is not None:
+            M = embed(m, fr, dtype=np.complex128)
+            cduals_m = tuple(not dd for dd in m.duals)
+            check_entries(fails, st, "conj[mixed-dtype]", entries3(lambda: m.conj(), lambda: sr.conj(m), lambda: ar.do("conj", m)),
+                          arr_verify(sym, np.conj(M), fr, cduals_m, G.neg(sym, m.charge)))
+            check_entries(fails, st, "dagger[mixed-dtype]", (("method", lambda: m.dagger()), ("H", lambda: m.H)),
+                          arr_verify(sym, np.conj(M).transpose(rev), tuple(fr[p] for p in rev), tuple(cduals_m[p] for p in rev), G.neg(sym, m.charge)))
+            check_entries(fails, st, "sum[mixed-dtype]", (("method", lambda: m.sum()),), scal(M.sum()))
+            check_entries(fails, st, "norm[mixed-dtype]", (("method", lambda: m.norm()),), scal(float(np.linalg.norm(M.ravel())), 1e-12))
+            check_entries(fails, st, "mul-scalar[mixed-dtype]", (("method", lambda: m * 2.0),), arr_verify(sym, M * 2.0, fr, m.duals, m.charge))
     # binary with a second operand of independent sparsity
     nontrivial = False
     if b_d is not None:
